@@ -1222,8 +1222,13 @@ fn case_term(c: &Case, ex: &Exec, cal: &Calib) -> Option<String> {
     let njobs = ex.ids.iter().filter(|i| i.job.is_some()).count();
     let mut acts = vec![];
     let mut expects = vec![];
+    let mut races: Vec<String> = vec![];
     for (i, (a, id)) in c.acts.iter().zip(&ex.ids).enumerate() {
-        if let Act::InputRace { input, .. } = a {
+        if let Act::InputRace { input, n, stepped, .. } = a {
+            if *stepped {
+                // the forced schedule: the model plays the guard it has (Gen ties its kind to runner.rs)
+                races.extend(id.race.iter().map(|(_, k)| format!("({n}, {k})")));
+            }
             // exactly one of the concurrent inputs started a run: each round is one unlinked session run
             for (r, (sid, accepted)) in id.race.iter().enumerate() {
                 if *accepted != 1 {
@@ -1295,7 +1300,7 @@ fn case_term(c: &Case, ex: &Exec, cal: &Calib) -> Option<String> {
         acts.push(format!("({term})"));
         expects.push(coq_list_n(&flat));
     }
-    Some(format!("{{| k_acts := {}; k_expect := {} |}}", coq_list(&acts, |s| s.clone()), coq_list(&expects, |s| s.clone())))
+    Some(format!("{{| k_acts := {}; k_expect := {}; k_races := {} |}}", coq_list(&acts, |s| s.clone()), coq_list(&expects, |s| s.clone()), coq_list(&races, |s| s.clone())))
 }
 
 // ------------------------------------------------------------------ generator
